@@ -560,8 +560,17 @@ class URL:
     def _cache_netloc(self) -> None:
         """Cache the netloc parts of the URL."""
         c = self._cache
-        split_loc = split_netloc(self._netloc)
-        c["raw_user"], c["raw_password"], c["raw_host"], c["explicit_port"] = split_loc
+        user, password, host, port = split_netloc(self._netloc)
+        if host is None and self._netloc:
+            # An authority is present: its host is empty, not missing
+            # (matches what the parser caches for a freshly parsed URL).
+            host = ""
+        c["raw_user"], c["raw_password"], c["raw_host"], c["explicit_port"] = (
+            user,
+            password,
+            host,
+            port,
+        )
 
     def is_absolute(self) -> bool:
         """A check for absolute URLs.
